@@ -73,7 +73,21 @@ def loop_summary_overwritten(fx, res, rule, scope=lambda f: f['name'].startswith
                         continue
                     if not any(x.get('k') == 'ref' and x.get('n') == flag for t in st[i + 1:] for x in walk(t)):
                         continue
+                    if leaves_loop_after(s['body'], n):
+                        continue                       # the loop stops at this element (search for the first hit): the value describes the element found
                     res.bad(rule, 'loop-summary-overwritten:%s:%s' % (f['name'].split('::')[-1], flag), fx.loc(f, n.get('ln')), '%s: the Boolean `%s` is assigned afresh in every iteration of the loop at line %s '
                             'from the current element and read after the loop: it describes the last element only, not all of them' % (f['name'], flag, s.get('ln')))
     rule['instances'] += n_loops
     return n_loops
+
+
+def leaves_loop_after(body, assign):
+    """the statement list that contains `assign` ends (after it) with break / return / throw / goto"""
+    for blk in walk(body):
+        if blk.get('k') != 'seq':
+            continue
+        items = [x for x in blk['c'] if isinstance(x, dict)]
+        for i, st in enumerate(items):
+            if any(x is assign for x in walk(st)) and not any(y.get('k') == 'seq' and any(x is assign for x in walk(y)) for y in walk(st) if y is not blk):
+                return any(t.get('k') in ('break', 'ret', 'throw', 'goto') for t in items[i:])
+    return False
